@@ -273,6 +273,28 @@ func ruleC01MatchEqual(r *Run, p *Program, rule string) {
 		if n == 0 {
 			r.bad(rule, funcKey(f), p.Pos(f.Pos()), "the key callback never reports a match")
 		}
+		// side effects of the callback (result captured for the caller, bookkeeping, log writes) happen only for the matching key
+		instrsOf(f, func(in ssa.Instruction) {
+			what := ""
+			switch x := in.(type) {
+			case *ssa.Store:
+				if _, ok := x.Addr.(*ssa.FreeVar); ok {
+					what = "assignment to a variable of the enclosing operation (" + valString(x.Addr) + ")"
+				}
+			case *ssa.Call:
+				k := calleeKey(&x.Call)
+				if strings.HasPrefix(k, "(*pogreb.") && k != "(*pogreb.datalog).readKey" && k != "(*pogreb.datalog).readKeyValue" {
+					what = "call to " + k
+				}
+			}
+			if what == "" {
+				return
+			}
+			okv := controlledBy(f, in, isGoodEqual)
+			r.check(okv, rule, funcKey(f)+":effect-under-match", p.Pos(in.Pos()),
+				"side effects of the key callback happen only after the full key comparison succeeded",
+				"the key callback performs a side effect ("+what+") before / without the full key comparison having succeeded: a slot that merely collides in hash and length leaves its value, or its bookkeeping, behind for a different key")
+		})
 	}
 }
 
